@@ -49,6 +49,7 @@ from . import (
     NotStoreError,
     OutOfSpaceError,
     Store,
+    guess_mime_type,
     open_by_content_type,
     open_by_extension,
 )
@@ -404,7 +405,7 @@ class GitStore(Store):
         Returns: iterator over (name, content_type, etag) tuples
         """
         for name, mode, sha in self._iterblobs(ctag):
-            (mime_type, _) = MIMETYPES.guess_type(name)
+            mime_type = guess_mime_type(name)
             if mime_type is None:
                 mime_type = DEFAULT_MIME_TYPE
             yield (name, mime_type, sha.decode("ascii"))
